@@ -1319,7 +1319,7 @@ impl ProtocolState {
         }),
 //@end
 
-//@fn gneiss-mqtt/src/protocol.rs ProtocolState::apply_connection_closed_to_current_operation props=C15,C04,C10,C11
+//@fn gneiss-mqtt/src/protocol.rs ProtocolState::apply_connection_closed_to_current_operation props=C15,C04,C10,C11,C01
     requires old(self).wf(),
     ensures final(self).wf(), r is Ok ==> final(self).current_operation is None,
         // during connection-closed handling (state already Disconnected) this never fails, whatever the half-written packet was
